@@ -7,6 +7,7 @@ import (
 	"sort"
 	"strconv"
 	"strings"
+	"sync"
 )
 
 // Ctx accumulates SMT declarations for one function's verification conditions.
@@ -27,6 +28,9 @@ type Ctx struct {
 	notes     map[string]int           // dropped/abstracted constructs, counted
 	assumed   map[string]bool          // assumptions used (external contracts etc.)
 	needStrExt bool
+	mu           sync.Mutex
+	declaredSyms map[string]bool
+	assumeSyms   []map[string]bool
 }
 
 func newCtx() *Ctx {
